@@ -69,6 +69,8 @@ fn child_body(engine: &mut Engine, case: &Value, chan: &mut std::fs::File, out_f
     // a case reports what happened during the case
     let counters_at_start: std::collections::HashMap<&'static str, u64> =
         steel::verif::counters().into_iter().collect();
+    // H-cov: the case reports the opcodes its own units drove, not the template engine's boot
+    steel::verif::reset_opcodes_seen();
     if let Some(n) = case["gc_every"].as_u64() {
         steel::verif::set_gc_every(n, case["gc_jitter"].as_u64().unwrap_or(0));
     }
@@ -237,8 +239,30 @@ fn child_body(engine: &mut Engine, case: &Value, chan: &mut std::fs::File, out_f
             endrec["events"] = Value::Array(evs);
         }
     }
+    endrec["opc"] = json!([opcode_bits(0), opcode_bits(1)]);
     let _ = writeln!(chan, "{}", endrec);
     let _ = chan.flush();
+}
+
+/// One '0'/'1' per opcode (numbering order): seen by the interpreter (tier 0) / translated by the native code generator (tier 1).
+fn opcode_bits(tier: usize) -> String {
+    let seen: std::collections::HashSet<String> = steel::verif::opcodes_seen(tier).into_iter().collect();
+    steel::verif::all_opcodes()
+        .iter()
+        .map(|n| if seen.contains(n) { '1' } else { '0' })
+        .collect()
+}
+
+fn or_bits(acc: &mut Vec<u8>, bits: &str) {
+    let b = bits.as_bytes();
+    if acc.len() < b.len() {
+        acc.resize(b.len(), b'0');
+    }
+    for (i, c) in b.iter().enumerate() {
+        if *c == b'1' {
+            acc[i] = b'1';
+        }
+    }
 }
 
 pub struct ChildOutcome {
@@ -388,6 +412,8 @@ pub fn main(args: &[String]) -> i32 {
     let reader = std::io::BufReader::new(std::fs::File::open(inp).expect("open --in"));
     let mut w = std::io::BufWriter::new(std::fs::File::create(outp).expect("create --out"));
     let _ = writeln!(w, "{}", json!({"harness": "run", "template_threads": nthreads}));
+    let mut opc_interp: Vec<u8> = Vec::new();
+    let mut opc_jit: Vec<u8> = Vec::new();
     for line in reader.lines() {
         let line = match line {
             Ok(l) => l,
@@ -453,6 +479,10 @@ pub fn main(args: &[String]) -> i32 {
             rec["out_tail"] = json!(t);
         }
         if !endrec.is_null() {
+            if let Some(a) = endrec["opc"].as_array() {
+                or_bits(&mut opc_interp, a[0].as_str().unwrap_or(""));
+                or_bits(&mut opc_jit, a[1].as_str().unwrap_or(""));
+            }
             rec["counters"] = endrec["counters"].clone();
             rec["ticks"] = endrec["ticks"].clone();
             rec["maxrss_kb"] = endrec["maxrss_kb"].clone();
@@ -462,6 +492,12 @@ pub fn main(args: &[String]) -> i32 {
         }
         let _ = writeln!(w, "{}", rec);
     }
+    let _ = writeln!(
+        w,
+        "{}",
+        json!({"harness": "opcov", "names": steel::verif::all_opcodes(),
+               "interpreted": String::from_utf8_lossy(&opc_interp), "native": String::from_utf8_lossy(&opc_jit)})
+    );
     let _ = w.flush();
     0
 }
